@@ -1,5 +1,6 @@
 import MakoModel.Codegen.CallsCor
 import MakoModel.Codegen.AttrsLemmas2
+import MakoModel.Codegen.Deco
 /-!
 # C05 – defs write at the call site; buffering, capture and calls with content
 
@@ -282,6 +283,25 @@ theorem capture_returns_and_leaves_output (ts : List (Tmpl × Option Bool)) (k :
 /-- `capture(d3)` of the sample: value `2(f)`, nothing written -/
 example : ∃ σ', eval (progOf [(sampleCalls, none)] 99) 50 (.capture 3 []) (Loc.init 0) St.init = (.val "2(f)".toList, σ') ∧
     σ'.bufs = St.init.bufs := ⟨_, rfl, by decide⟩
+
+/-! ## `decorator=` wraps the call -/
+
+/-- **The def sees what the decorator passed, positional and keyword.**  `runtime._decorate_toplevel` (top-level defs)
+    and `runtime._decorate_inline` (nested defs), modelled in `Codegen/Deco.lean` with the render callable observed
+    (`Trace`: context, positionals, keywords of every entry): for EVERY decorator that calls what it wraps once per
+    transformation `t ∈ ts` of the arguments it received (forwarding, replacing / adding / dropping keywords, permuting
+    positionals, calling twice …), every context and all arguments, the render callable is entered exactly once per
+    `t`, in order, with the context of the call and with `t args` – the positionals AND the keywords the decorator
+    supplied, not those of the original call.  (In the refinement above a decorator is an evaluation point before and
+    after the call; its argument handling is this theorem plus the streams `corr.deco` / `oracle.decorators`.) -/
+theorem decorator_receives_and_forwards (ts : List (Deco.Args → Deco.Args)) (context : Nat) (args : Deco.Args) :
+    Deco.decorateToplevel (Deco.wrapper ts) (fun c a => [(c, a)]) context args = ts.map (fun t => (context, t args)) ∧
+    Deco.decorateInline context (Deco.wrapper ts) (fun a => [(context, a)]) args = ts.map (fun t => (context, t args)) :=
+  ⟨Deco.toplevel_forwards ts context args, Deco.inline_forwards ts context args⟩
+
+/-- the family `twice` of the harness (second call with other keyword values) on `f('x', k='y')` -/
+example : Deco.decorateToplevel (Deco.wrapper (Deco.family "twice")) (fun c a => [(c, a)]) 7 ⟨[['x']], [(['k'], ['y'])]⟩ =
+    [(7, ⟨[['x']], [(['k'], ['y'])]⟩), (7, ⟨[['x']], [(['k'], ['y', '2'])]⟩)] := by decide
 
 /-! ## calls with content: `caller` -/
 
